@@ -100,23 +100,29 @@ def cli_cases(res, drv, tier):
     for n in (48, 64, 100, 256):
         for sp in common.spellings(n)[:2]:
             cases.append(("size", n, sp))
+    # names are option *values*: whatever character they begin with (argparse has opinions about some)
+    for nm in ("@home_sensor", "+plus", "%x", "~tilde", "=eq", ":colon", "#hash"):
+        cases.append(("class", nm, nm))
+        cases.append(("vendor", nm, nm))
     with tempfile.TemporaryDirectory(prefix="verif_c12cli_") as d:
         def one(k):
             which, n, sp = cases[k]
             out = os.path.join(d, f"m{k}.hex")
             common.make_stale(out)
-            rc, log = common.run_cli(["mpi", "generate", "--output-file", out, "--vendor-name", "nordicsemi.com", "--class-name", "cls", "--address",
-                                      sp if which == "address" else "0x1000", "--size", sp if which == "size" else "48"], d)
+            rc, log = common.run_cli(["mpi", "generate", "--output-file", out, "--vendor-name", sp if which == "vendor" else "nordicsemi.com", "--class-name",
+                                      sp if which == "class" else "cls", "--address", sp if which == "address" else "0x1000", "--size", sp if which == "size" else "48"], d)
             return rc, log, (open(out).read() if common.was_written(out) else None)
         with ThreadPoolExecutor(max_workers=12) as ex:
             outs = list(ex.map(one, range(len(cases))))
     for (which, n, sp), (rc, log, text) in zip(cases, outs):
         res.case(["cli-mpi", which, n, sp], nontrivial=True)
         res.count("cli:mpi:" + which)
-        m = drv.call({"op": "mpi.generate", "vendor": "nordicsemi.com", "cls": "cls", "address": n if which == "address" else 0x1000,
-                      "size": n if which == "size" else 48, "dp": False, "iu": False, "sv": None})
+        m = drv.call({"op": "mpi.generate", "vendor": n if which == "vendor" else "nordicsemi.com", "cls": n if which == "class" else "cls",
+                      "address": n if which == "address" else 0x1000, "size": n if which == "size" else 48, "dp": False, "iu": False, "sv": None})
         if rc != 0 or text is None:
             a_, s_ = (n if which == "address" else 0x1000), (n if which == "size" else 48)
+            if which in ("class", "vendor"):
+                a_, s_ = 0x1000, 48
             if "ok" in m and a_ + s_ <= 2 ** 32:        # a record that ends beyond the 32-bit address space cannot be written as Intel-HEX
                 res.spec_failures.append({"cli": "mpi generate", "argument": [which, sp], "what": f"the command line refused {which} = {sp} (exit {rc})", "log": log[-300:]})
             continue
